@@ -220,7 +220,21 @@ def _clears_ignore_eof(fn):
     return False
 
 
+def _refresh_c08_params():
+    """coq/Conc/TlsPump.v (shared with C08) reads Gen/ParamsC08.v: keep it in step with the tree under test."""
+    import c08
+    from common import coqrun
+    text = "(* REGENERATED from /repo on every run by harness/c08.py -- do not edit *)\n" + c08.params()
+    path = os.path.join(coqrun.COQ, "Gen", "ParamsC08.v")
+    with coqrun.build_lock():
+        old = open(path).read() if os.path.exists(path) else None
+        if old != text:
+            with open(path, "w") as fh:
+                fh.write(text)
+
+
 def params():
+    _refresh_c08_params()
     tls = _parse(_TLS)
     sock = _parse(_SOCK)
     utils = _parse("src/easynetwork/lowlevel/_utils.py")
